@@ -367,7 +367,11 @@ fn gen_source(
                 if !pending_tags.is_empty() && rng.chance(2, 3) {
                     let k = rng.below(pending_tags.len());
                     let t = pending_tags.remove(k);
-                    l = format!("{l}<{t}>{t}");
+                    l = match rng.below(4) {
+                        0 => t.clone(), // the tag alone on its line
+                        1 => format!("  {t}"),
+                        _ => format!("{l}<{t}>{t}"),
+                    };
                     p.sig.push("tag-use".into());
                 }
                 b.text(l);
@@ -528,7 +532,11 @@ fn gen_source(
         pending_tags.push(listening.take().unwrap());
     }
     if !pending_tags.is_empty() {
-        let l = pending_tags.iter().map(|t| format!("[{t}]")).collect::<Vec<_>>().join(" ");
+        let l = if pending_tags.len() == 1 && rng.chance(1, 2) {
+            pending_tags[0].clone()
+        } else {
+            pending_tags.iter().map(|t| format!("[{t}]")).collect::<Vec<_>>().join(" ")
+        };
         // must not merge into an open block: it carries the tag use sites
         b.head("", "", l, false, false);
         p.sig.push("tag-use-final".into());
